@@ -73,9 +73,10 @@ func (v *Validator) ExtractKey(headers map[string]string, queryParams map[string
 	if headerVal, ok := headers[v.headerName]; ok && headerVal != "" {
 		if v.headerName == "Authorization" {
 			// Only accept Bearer scheme for Authorization header
-			if strings.HasPrefix(headerVal, "Bearer ") {
-				token := strings.TrimPrefix(headerVal, "Bearer ")
-				if token != "" {
+			// (scheme names are case-insensitive and may be followed by several spaces)
+			const scheme = "bearer"
+			if h := strings.TrimSpace(headerVal); len(h) > len(scheme) && h[len(scheme)] == ' ' && strings.EqualFold(h[:len(scheme)], scheme) {
+				if token := strings.TrimLeft(h[len(scheme):], " "); token != "" {
 					return token
 				}
 			}
